@@ -717,3 +717,49 @@ mod c15 {
         kani::cover!(old_ack.is_some() && r.is_ok(), "piggy-backed ack");
     }
 }
+
+// ---- C10: the receive time every exchange's accept deadline is measured from -------------------
+mod c10 {
+    use super::*;
+
+    fn fake_now() -> Instant {
+        Instant::from_ticks(kani::any())
+    }
+
+    /// A message nobody picks up is discarded once its accept deadline passed
+    /// (`TransportRunner::handle_accept_timeout_rx_packet`), and that deadline is measured from the
+    /// exchange's `received_at`. So EVERY message accepted by the exchange's reliability layer -
+    /// reliable or not (over TCP/BTP none carries the R flag) - must stamp it, or the receive path
+    /// wedges on the first unaccepted unreliable message.
+    // TIER: quick   KIND: complete
+    #[kani::proof]
+    #[kani::stub(embassy_time::Instant::now, fake_now)]
+    fn c10_rm_post_recv_stamps_receive_time_for_every_message() {
+        // a fresh exchange (nothing pending, never received anything) - what `Session::post_recv` creates
+        let mut m = ReliableMessage::new();
+        kani::assert(m.received_at.is_none() && m.retrans.is_none() && m.ack.is_none(), "C10.rx.fresh_exchange_has_no_receive_time");
+        let mut plain = PlainHdr::new();
+        plain.ctr = kani::any();
+        let mut proto = ProtoHdr::new();
+        proto.exch_id = kani::any();
+        proto.proto_id = kani::any();
+        proto.proto_opcode = kani::any();
+        let reliable: bool = kani::any();
+        if reliable {
+            proto.set_reliable();
+        }
+        if kani::any() {
+            proto.set_initiator();
+        }
+        if kani::any() {
+            proto.set_ack(Some(kani::any()));
+        }
+
+        let res = m.post_recv(&plain, &proto);
+
+        kani::assert(res.is_ok(), "C10.rx.first_message_of_an_exchange_is_accepted");
+        kani::assert(m.received_at.is_some(), "C10.rx.receive_time_stamped_for_every_accepted_message");
+        kani::cover!(!reliable, "message without the R flag");
+        kani::cover!(reliable, "reliable message");
+    }
+}
